@@ -32,7 +32,8 @@ class Mock:
 
     # ---- mock semantics (mirrors MockACD.v)
     def g_at(self, Xw, j):
-        return (Xw[j] - self.T[j]) * self.a[j]
+        # feature j is carried by sample j mod n_samples (n_samples may differ from n_features)
+        return (Xw[j % len(Xw)] - self.T[j]) * self.a[j]
 
     def epoch(self, w, Xw, ws):
         self.counts["epochs"] += 1
@@ -41,7 +42,7 @@ class Mock:
             v0 = (old + self.T[j]) / 2
             v = 0.0 if abs(v0) < self.thr else (0.0 if (self.positive and v0 < 0) else v0)
             w[j] = v
-            Xw[j] += v - old
+            Xw[j % len(Xw)] += v - old
 
 
 class MockDatafit:
@@ -53,7 +54,7 @@ class MockDatafit:
     def full_grad_sparse(self, data, indptr, indices, y, Xw):
         return np.array([self.M.g_at(Xw, j) for j in range(self.M.p)])
     def value(self, y, w, Xw):
-        return sum((Xw[j] - self.M.T[j]) ** 2 * self.M.a[j] / 2 for j in range(len(w)))
+        return sum((Xw[j % len(Xw)] - self.M.T[j]) ** 2 * self.M.a[j] / 2 for j in range(len(w)))
     def intercept_update_step(self, y, Xw): return (Xw[0] - self.M.B) / 2
     def gradient_scalar(self, *a): raise AssertionError("kernel should be mocked")
 
@@ -105,7 +106,7 @@ class NpProxy:
         return np.array(sorted(order), dtype=np.int64)
 
 
-def run_real(M, cfg, w_init, Xw_init, sparse_X):
+def run_real(M, cfg, w_init, Xw_init, sparse_X, n=None):
     import skglm.solvers.anderson_cd as acd
     saved = {k: getattr(acd, k) for k in ("_cd_epoch", "_cd_epoch_sparse", "construct_grad", "construct_grad_sparse",
                                           "dist_fix_point_cd", "AndersonAcceleration", "np")}
@@ -122,7 +123,8 @@ def run_real(M, cfg, w_init, Xw_init, sparse_X):
         acd.construct_grad, acd.construct_grad_sparse, acd.dist_fix_point_cd = cgrad, cgrad_s, fixp
         acd.AndersonAcceleration, acd.np = MockAccel, NpProxy()
         p = M.p
-        X = np.zeros((p, p))
+        n = p if n is None else n
+        X = np.zeros((n, p))
         if sparse_X:
             X = sparse.csc_matrix(X)
         solver = acd.AndersonCD(max_iter=cfg["max_iter"], max_epochs=cfg["max_epochs"], p0=cfg["p0"], tol=cfg["tol"],
@@ -134,7 +136,7 @@ def run_real(M, cfg, w_init, Xw_init, sparse_X):
         df, pen = MockDatafit(M), MockPenalty(M)
         M.counts = dict(epochs=0, accepts=0)
         try:
-            w, obj, stop = solver._solve(X, np.zeros(p), df, pen, w0, x0)
+            w, obj, stop = solver._solve(X, np.zeros(n), df, pen, w0, x0)
         except (ValueError, IndexError, TypeError, AttributeError, ZeroDivisionError) as e:
             return dict(err=True, exc=repr(e))
         Xw_buf = x0 if x0 is not None else None
@@ -148,6 +150,7 @@ def run_real(M, cfg, w_init, Xw_init, sparse_X):
 
 def gen_case(rng):
     p = rng.randint(1, 5)
+    n = p if rng.random() < 0.4 else rng.choice([rng.randint(1, p + 2), rng.randint(1, p)])   # n_samples != n_features in most runs (n < p often)
     M = Mock(rng, p)
     fi = rng.random() < 0.5
     cfg = dict(max_iter=rng.choice([0, 1, 1, 2, 3]), max_epochs=rng.choice([0, 1, 3, 4, 7, 10, 11, 12]),
@@ -158,20 +161,21 @@ def gen_case(rng):
     if r < 0.35:
         w_init = Xw_init = None
     else:
-        w_init = [rng.choice(D + [0.0, 0.0]) for _ in range(p + fi)]
+        dense_start = rng.random() < 0.3                              # dense warm start: support larger than p0
+        w_init = [rng.choice(D if dense_start else D + [0.0] * 6) for _ in range(p + fi)]
         if r < 0.45:
             w_init = w_init[:-1] if len(w_init) > 1 else w_init + [0.0]         # malformed length
         bb = w_init[-1] if fi else 0.0
-        Xw_init = [(w_init[j] if j < len(w_init) else 0.0) + bb for j in range(p)]      # consistent model fit
+        Xw_init = [sum(w_init[j] for j in range(p) if j % n == i and j < len(w_init)) + bb for i in range(n)]   # consistent model fit
         if rng.random() < 0.15:
-            Xw_init = [rng.choice(D) for _ in range(p)]                             # inconsistent start (still legal input)
-    return M, cfg, w_init, Xw_init, rng.random() < 0.4
+            Xw_init = [rng.choice(D) for _ in range(n)]                             # inconsistent start (still legal input)
+    return M, cfg, w_init, Xw_init, rng.random() < 0.4, n
 
 
-def coq_case(M, cfg, w_init, Xw_init, obs):
+def coq_case(M, cfg, w_init, Xw_init, obs, n=None):
     cfgc = ("{| max_iter := %d; max_epochs := %d; p0 := %s; tol := %s; fixpoint := %s; fit_intercept := %s; "
             "n_features := %d; n_samples := %d |}" % (cfg["max_iter"], cfg["max_epochs"], z(cfg["p0"]), q(cfg["tol"]),
-                                                      b(cfg["fixpoint"]), b(cfg["fit_intercept"]), M.p, M.p))
+                                                      b(cfg["fixpoint"]), b(cfg["fit_intercept"]), M.p, M.p if n is None else n))
     wi = "None" if w_init is None else f"(Some {vq(w_init)})"
     xi = "None" if Xw_init is None else f"(Some {vq(Xw_init)})"
     expr = f"solve {cfgc} (mock_kernels {M.coq()}) {wi} {xi}"
@@ -185,13 +189,13 @@ def coq_case(M, cfg, w_init, Xw_init, obs):
 
 
 def make_cases(rng, n):
-    cases, dist = [], dict(err=0, iters={}, epochs_total=0, sparse=0, warm=0, fixpoint=0, intercept=0)
+    cases, dist = [], dict(err=0, iters={}, epochs_total=0, sparse=0, warm=0, fixpoint=0, intercept=0, n_ne_p=0)
     for k in range(n):
-        M, cfg, w_init, Xw_init, sp = gen_case(rng)
-        obs = run_real(M, cfg, w_init, Xw_init, sp)
-        expr, o, has_buf = coq_case(M, cfg, w_init, Xw_init, obs)
+        M, cfg, w_init, Xw_init, sp, n = gen_case(rng)
+        obs = run_real(M, cfg, w_init, Xw_init, sp, n)
+        expr, o, has_buf = coq_case(M, cfg, w_init, Xw_init, obs, n)
         chk = "chk_run_buf" if has_buf else "chk_run_nobuf"
-        label = f"acd#{k} cfg={cfg} sparse={sp} w_init={w_init} Xw_init={Xw_init} T={M.T} a={M.a} lip={M.lip} pen={M.pen} alpha={M.alpha} B={M.B} pos={M.positive} thr={M.thr} -> {obs}"
+        label = f"acd#{k} n_samples={n} cfg={cfg} sparse={sp} w_init={w_init} Xw_init={Xw_init} T={M.T} a={M.a} lip={M.lip} pen={M.pen} alpha={M.alpha} B={M.B} pos={M.positive} thr={M.thr} -> {obs}"
         cases.append((label, expr, chk, o))
         if obs["err"]:
             dist["err"] += 1
@@ -199,6 +203,7 @@ def make_cases(rng, n):
             dist["iters"][obs["iters"]] = dist["iters"].get(obs["iters"], 0) + 1
             dist["epochs_total"] += obs["epochs"]
         dist["sparse"] += sp
+        dist["n_ne_p"] += n != M.p
         dist["warm"] += w_init is not None
         dist["fixpoint"] += cfg["fixpoint"]
         dist["intercept"] += cfg["fit_intercept"]
